@@ -400,9 +400,10 @@ func report(p *Prog, run *propRun, opts checkOpts, diags []string, wall time.Dur
 			continue
 		}
 		o := cur[n]
-		// obligations attached to an expression of the code (not to a contract clause): when the expression is gone
-		// -- moved into a helper, removed -- there is nothing left to prove at that site
-		isPanic := strings.Contains(n, "#panic") || strings.Contains(n, "#guard.") || strings.Contains(n, "#lock.")
+		// obligations attached to an expression of the code (an indexing, a field access, a call site), not to a clause
+		// of the verified function's own contract: when the expression is gone -- moved into a helper (its obligations
+		// then appear under a via: name), removed -- there is nothing left to prove at that site
+		isPanic := strings.Contains(n, "#panic") || strings.Contains(n, "#guard.") || strings.Contains(n, "#lock.") || strings.Contains(n, "#call(")
 		if o == nil {
 			if isPanic {
 				continue // the expression no longer exists
